@@ -8,7 +8,7 @@ FFT_STUBS = ["RealFftPlanner::new -> zeroed planner", "plan_fft_forward/inverse 
 
 
 def H(mod, props, tier="quick", cap=420, sym="", bounds="", stubs=(), untagged="C03",
-      witness=False, thorough_cap=3600, mem=6, props_thorough=()):
+      witness=False, thorough_cap=3600, mem=4, props_thorough=()):
     """props: properties whose quick AND thorough checks run this harness;
     props_thorough: properties that additionally run it in their thorough tier only
     (a harness whose scenario is owned by another property but whose monitors also
@@ -143,7 +143,7 @@ HARNESSES["c09_witness"] = H("c09", ["C09"], witness=True, cap=300, untagged="C0
 # ---------------------------------------------------------------- C10: reset == fresh (also C03: untagged checks after reset)
 _c10_sym_thorough = "pre-reset history: ratio change with every accepted f64 (D_full; FixedIn: k/32 grid), ramp bool, mask entry, optional pending relative ramp, a failed call; post-reset calls compared with a fresh twin"
 def _c10(name, bounds, sym, stubs=(), cap=600, witness=False, tier="quick"):
-    HARNESSES[name] = H("c10", ["C10"], cap=cap, sym=sym, bounds=bounds, stubs=stubs, untagged="C10", witness=witness, mem=(7 if stubs else 6), tier=tier, props_thorough=["C03"])
+    HARNESSES[name] = H("c10", ["C10"], cap=cap, sym=sym, bounds=bounds, stubs=stubs, untagged="C10", witness=witness, mem=(7 if stubs else 4), tier=tier, props_thorough=["C03"])
 _conc = "none in the history (concrete: constant-folds); the solver decides every memory-safety/overflow check on the path and the equalities against the fresh twin"
 _c10("c10_ffo_lowered", "FastFixedOut<f64> Linear chunk 2, 1 ch, max_rel 2; history: ratio 0.5 stepped, 1 masked call; reset; getters + 3 calls vs fresh twin", _conc)
 _c10("c10_ffo_ramp_pending", "FastFixedOut<f32> Cubic chunk 2, 1 ch; history: ratio 1.75 ramped, 2 calls, pending relative ramp 1.25, failed call; reset; 3 calls vs twin", _conc)
@@ -167,7 +167,7 @@ _c10("c10_witness", "no reset before the comparison: must FAIL (vacuity witness)
 
 # ---------------------------------------------------------------- C16: wrappers == core call
 def _c16(name, bounds, sym, stubs=(), cap=600, witness=False, tier="quick", mod="c16"):
-    HARNESSES[name] = H(mod, ["C16"], cap=cap, sym=sym, bounds=bounds, stubs=stubs, untagged="C16", witness=witness, mem=(7 if stubs else 6), tier=tier, thorough_cap=5400)
+    HARNESSES[name] = H(mod, ["C16"], cap=cap, sym=sym, bounds=bounds, stubs=stubs, untagged="C16", witness=witness, mem=(7 if stubs else 4), tier=tier, thorough_cap=5400)
 _pv = "mask: None or Some([m0,m1]) symbolic; inactive channels are passed empty input slices"
 _c16("c16_process_ffo", "FastFixedOut<f64> Nearest chunk 2, 2 ch, fresh; process() vs process_into_buffer() on a twin, index-signal input", _pv)
 _c16("c16_process_sfi", "SincFixedIn<f64>+Probe(2,1) Nearest chunk 6, 2 ch (estimate larger than written count: truncation)", _pv, tier="thorough")
@@ -190,7 +190,7 @@ _c16("c16_witness", "twins of different ratio: must FAIL (vacuity witness)", "no
 
 # ---------------------------------------------------------------- C11: channel independence and masks
 def _c11(name, bounds, sym, stubs=(), cap=900, witness=False, tier="quick"):
-    HARNESSES[name] = H("c11", ["C11"], cap=cap, sym=sym, bounds=bounds, stubs=stubs, untagged="C11", witness=witness, mem=(7 if stubs else 6), tier=tier)
+    HARNESSES[name] = H("c11", ["C11"], cap=cap, sym=sym, bounds=bounds, stubs=stubs, untagged="C11", witness=witness, mem=(7 if stubs else 4), tier=tier)
 _m = "mask None or Some([m0,m1]) symbolic (all-false included; inactive channels passed EMPTY slices)"
 _c11("c11_ffo_ch1", "FastFixedOut<f64> Nearest chunk 6: 2-channel instance vs a 1-channel twin standing for channel 1, 1 call, distinct index lines", _m)
 _c11("c11_ffo_ch0_linear", "FastFixedOut<f32> Linear chunk 5 ratio 0.75: 2-channel vs 1-channel twin for channel 0, 1 call", _m)
@@ -209,7 +209,7 @@ HARNESSES["c11_sfi_ch1_sym"]["tier"] = "thorough"
 
 # ---------------------------------------------------------------- C17: f32 / f64 twins
 def _c17(name, bounds, sym, stubs=(), cap=600, witness=False, tier="quick"):
-    HARNESSES[name] = H("c17", ["C17"], cap=cap, sym=sym, bounds=bounds, stubs=stubs, untagged="C17", witness=witness, mem=(7 if stubs else 6), tier=tier, thorough_cap=5400)
+    HARNESSES[name] = H("c17", ["C17"], cap=cap, sym=sym, bounds=bounds, stubs=stubs, untagged="C17", witness=witness, mem=(7 if stubs else 4), tier=tier, thorough_cap=5400)
 _g = "setter argument: every f64; ramp; absolute/relative"
 _c17("c17_ffo_getters", "FastFixedOut<f32> vs <f64> (orig 0.75, max 2, Cubic, chunk 3): all getters before and after a ratio change, setter verdicts equal; no processing call", _g)
 _c17("c17_sfo_getters", "SincFixedOut<f32> vs <f64> +Probe(8,2) (orig 1.25, max 2): as above", _g)
@@ -266,7 +266,7 @@ for _n, _t in (("c03_ffo_three_changes", "FastFixedOut<f64> Linear"), ("c03_sfo_
 
 # ---------------------------------------------------------------- C05: chunking / variant independence
 def _c05(name, bounds, sym, stubs=(), cap=900, witness=False, tier="quick"):
-    HARNESSES[name] = H("c05", ["C05"], cap=cap, sym=sym, bounds=bounds, stubs=stubs, untagged="C05", witness=witness, mem=(7 if stubs else 6), tier=tier, props_thorough=["C03"])
+    HARNESSES[name] = H("c05", ["C05"], cap=cap, sym=sym, bounds=bounds, stubs=stubs, untagged="C05", witness=witness, mem=(7 if stubs else 4), tier=tier, props_thorough=["C03"])
 _c05("c05_ffo_chunks_2_3", "FastFixedOut<f64> Nearest ratio 0.75: chunk 2 (3 calls) vs chunk 3 (2 calls) on the same stream; common prefix >= 6 frames bit-identical", "the signal: every finite f32 value per input sample (24 samples)")
 _c05("c05_sfo_chunks_1_3", "SincFixedOut<f64>+Probe(4,2) Nearest ratio 1.5: chunk 1 (6 calls) vs chunk 3 (2 calls); index-signal input", "none (concrete; the solver decides the safety checks and the equalities)")
 _c05("c05_ffi_vs_ffo", "FastFixedIn chunk 8 (2 calls) vs FastFixedOut chunk 5 (2 calls), Nearest ratio 1: common prefix >= 8 frames bit-identical", "the signal: every finite f32 value per input sample")
